@@ -634,6 +634,11 @@ def _checked_worktree_path(repo: "Repo", tree_path: bytes) -> bytes:
         verify_leading_dirs,
     )
 
+    # Without a work tree repo.path is the control directory itself: a tree
+    # entry such as hooks/pre-commit or config would be written into it.
+    if repo.bare:
+        raise Error("this operation must be run in a work tree")
+
     # Tree paths use "/" as the separator, so a leading "/", "\\" or (on
     # Windows) drive-letter prefix would make os.path.join discard the
     # repository root.
